@@ -2353,6 +2353,15 @@ func runC19(c *ctx) {
 				if _, verr := platform.NewPlatformVariant(p.yaml(), "no-such-variant", c19Host); !errors.Is(verr, util.ErrPlatformError) {
 					return fmt.Errorf("unknown variant: %v", verr)
 				}
+				// definitions that cannot be loaded are errors, not panics, through both entry points
+				for _, src := range []interface{}{filepath.Join(c19Dir, "no-such-definition.yaml"), []byte("default: [not, a, mapping")} {
+					if pp, lerr := platform.NewPlatform(src, c19Host); lerr == nil || pp != nil {
+						return fmt.Errorf("NewPlatform(%v) = (%v, %v)", src, pp != nil, lerr)
+					}
+					if pp, lerr := platform.NewPlatformVariant(src, "v1", c19Host); lerr == nil || pp != nil {
+						return fmt.Errorf("NewPlatformVariant(%v) = (%v, %v)", src, pp != nil, lerr)
+					}
+				}
 				return nil
 			}()
 			if err != nil {
